@@ -154,6 +154,10 @@ func (m *mapOrder) runBaselines(designs []*DesignRef) []*baseline {
 			m.stats.notGenerated++
 			m.mu.Unlock()
 			m.c.Outcome("design not generated (stage " + r.Res.Stage + ")")
+			if d.XDesign != "" {
+				// a hand-written design that goa does not generate is lost coverage, not a pass
+				m.c.Incomplete("extra design " + d.Name + " was not generated (stage " + r.Res.Stage + "): the sites only it reaches are not explored")
+			}
 			return
 		}
 		out[i] = &baseline{d: d, run: r}
